@@ -240,8 +240,27 @@ def run_case(case):
         elif route == "io":
             eio.write(path, data, delim=delim, header=header)
         elif route == "SFile":
-            with sfile.SFile(path, "w", delim=delim) as sf:
+            if rng.random() < .3:
+                # one SFile object re-used: its previous open() was of another text file - read normally, or failing
+                # after the header had been read (a file that says it holds 0 rows) - then open(path, 'w')
+                other = path + ".other"
+                sfile.write(other, data[:1].copy() if rng.random() < .5 else rs.text_table(rng, nrows=2), delim=delim, header={"first": 1})
+                sf = sfile.SFile()
+                if rng.random() < .5:
+                    raw0 = open(other, "rb").read()
+                    open(other, "wb").write(b"SIZE = %20d" % 0 + raw0[raw0.find(b"\n"):])
+                try:
+                    sf.open(other)
+                    sf.read()
+                except Exception:
+                    pass
+                sf.open(path, "w", delim=delim)
                 sf.write(data, header=header)
+                sf.close()
+                os.unlink(other)
+            else:
+                with sfile.SFile(path, "w", delim=delim) as sf:
+                    sf.write(data, header=header)
         else:
             with recfile.Recfile(path, "w", delim=delim) as rf:
                 rf.write(data)
